@@ -324,6 +324,29 @@ impl Command for Named {
     }
 }
 
+/// the halt flag handed to Env::new is the one the runner polls: for every combination of writers, raise the caller's flag before
+/// the run and count how many instructions start
+fn mode_env_wiring(_case: &Value) -> Value {
+    use duckscript::types::env::Env;
+    use std::sync::atomic::{AtomicBool, Ordering};
+    use std::sync::Arc;
+    let mut out = vec![];
+    for (with_out, with_err) in [(false, false), (true, false), (false, true), (true, true)] {
+        let flag = Arc::new(AtomicBool::new(false));
+        let o: Option<Box<dyn std::io::Write>> = if with_out { Some(Box::new(std::io::sink())) } else { None };
+        let e: Option<Box<dyn std::io::Write>> = if with_err { Some(Box::new(std::io::sink())) } else { None };
+        let env = Env::new(o, e, Some(flag.clone()));
+        let same = Arc::ptr_eq(&env.halt, &flag);
+        let mut context = Context::new();
+        let log = Rc::new(RefCell::new(vec![]));
+        let _ = context.commands.set(Box::new(Scripted { name: "c".to_string(), log: log.clone(), results: Rc::new(RefCell::new(vec![])) }));
+        flag.store(true, Ordering::SeqCst);
+        let ok = runner::run_script("c\nc\nc", context, Some(env)).is_ok();
+        out.push(json!({"out": with_out, "err": with_err, "same_flag": same, "ok": ok, "started": log.borrow().len()}));
+    }
+    json!({"ok": true, "cases": out})
+}
+
 /// registry histories through the public Commands API
 fn mode_registry(case: &Value) -> Value {
     let mut commands = Commands::new();
@@ -389,6 +412,7 @@ fn main() {
         "sdk" => mode_sdk(&case),
         "scripted" => mode_scripted(&case),
         "registry" => mode_registry(&case),
+        "env_wiring" => mode_env_wiring(&case),
         "scripted_sdk" => mode_scripted_sdk(&case),
         _ => json!({"error": "unknown mode"}),
     });
